@@ -385,6 +385,15 @@ def make_numpy(extra=None):
         return Tensor(oshape, data)
     A["einsum"] = Builtin("np.einsum", einsum)
 
+    def empty(I, a, k):
+        """np.empty: an array whose entries are arbitrary (fresh symbols) until written"""
+        shp = shape_of(a[0] if a else k.get("shape"))
+        n = 1
+        for s_ in shp:
+            n *= s_
+        return Tensor(shp, [I.path.fresh("uninitialised") for _ in range(n)])
+    A["empty"] = Builtin("np.empty", empty)
+
     def isclose(I, a, k):
         """|a - b| <= atol + rtol * |b| elementwise (numpy defaults rtol=1e-5, atol=1e-8), exact over the reals"""
         from fractions import Fraction
@@ -417,8 +426,42 @@ def make_numpy(extra=None):
         return r
     A["allclose"] = Builtin("np.allclose", allclose)
 
+    def dtype_kind(d):
+        """'bool' | 'int' | 'float' | None for the dtype= argument of array constructors"""
+        if d is None:
+            return None
+        nm = getattr(d, "name", None) or (d if isinstance(d, str) else None)
+        if nm is None:
+            return None
+        nm = str(nm)
+        if nm.startswith("bool"):
+            return "bool"
+        if nm.startswith(("int", "uint", "intp")) or nm in ("int_", "i8", "i4"):
+            return "int"
+        if nm.startswith(("float", "double")) or nm in ("f8", "f4"):
+            return "float"
+        return None
+
+    def cast_tensor(I, t, kind):
+        """array with another element type: bool -> 0/1 numbers, numbers -> bool by != 0 (float -> int truncation is not modelled)"""
+        if kind is None or not isinstance(t, Tensor):
+            return t
+        src = "bool" if t.dtype == "bool" else ("int" if t.dtype == "int" else "float")
+        if src == kind:
+            return t
+        if src == "bool":
+            return Tensor(t.shape, [(1 if e else 0) if isinstance(e, bool) else (mk(z3.If(e.t, z3.IntVal(1), z3.IntVal(0))) if isinstance(e, Sym) else e) for e in t.data], kind)
+        if kind == "bool":
+            return Tensor(t.shape, [ops.compare(I, "NotEq", e, 0) for e in t.data], "bool")
+        if src == "int" and kind == "float":
+            return Tensor(t.shape, list(t.data), "float")
+        raise Unsupported(f"array conversion {src} -> {kind}")
+
     def array(I, a, k):
         x = a[0]
+        kind = dtype_kind(k.get("dtype", a[1] if len(a) > 1 else None))
+        if kind is not None and isinstance(x, Tensor):
+            return cast_tensor(I, x.copy(), kind)
         if isinstance(x, Tensor):
             return x.copy()
         if hasattr(x, "np_array"):
@@ -428,6 +471,9 @@ def make_numpy(extra=None):
 
     def asarray(I, a, k):
         x = a[0]
+        kind = dtype_kind(k.get("dtype", a[1] if len(a) > 1 else None))
+        if kind is not None and isinstance(x, Tensor):
+            return cast_tensor(I, x, kind)
         if isinstance(x, Tensor):
             return x
         if hasattr(x, "np_array"):
@@ -634,7 +680,14 @@ def make_numpy(extra=None):
         if t.ndim != 2 or t.shape[0] != t.shape[1]:
             raise PyExc("LinAlgError", ("Last 2 dimensions of the array must be square",))
         return I.hooks["linalg_inv"](I, t) if "linalg_inv" in I.hooks else default_inv(I, t)
-    A["linalg"] = Linalg("numpy.linalg", {"inv": Builtin("np.linalg.inv", inv)})
+    def det(I, a, k):
+        x = a[0]
+        t = x.array if hasattr(x, "array") and isinstance(getattr(x, "array"), Tensor) else as_tensor(I, x)
+        if t.shape != (3, 3):
+            raise Unsupported("np.linalg.det of a non 3x3 array")
+        from .ase_model import det3
+        return det3(I, t)
+    A["linalg"] = Linalg("numpy.linalg", {"inv": Builtin("np.linalg.inv", inv), "det": Builtin("np.linalg.det", det)})
 
     def array_equal(I, a, k):
         x, y = as_tensor(I, a[0]), as_tensor(I, a[1])
